@@ -19,6 +19,8 @@ META = {
     "exhaustive": True,
 }
 GEN = ("scale_typegen",)
+COMPACT_AS_PATH = "P0.settings.compact_as_type_path"
+COMPACT_AS_INSERT = ".Derives::insert_derive(T[#0](%s@v1::Some.0))" % COMPACT_AS_PATH
 
 
 def check(ctx):
@@ -41,7 +43,9 @@ def check(ctx):
             ds = show(d, 10 ** 5)
             i_flat = q.param_index(fn, lambda t: t.endswith("FlatDerivesRegistry"))
             i_ty = q.param_index(fn, lambda t: t.startswith("&scale_info::Type<"))
-            ok = ds.startswith("mut[FlatDerivesRegistry::resolve_derives_for_type(P%d,P%d)?;TypeGenerator::add_as_compact_derive(P0,&self) if (let TypeDef::Composite($)=P%d.type_def&&CompositeIRKind::could_derive_as_compact(" % (i_flat, i_ty, i_ty))
+            # the CompactAs insertion may live in a private helper taking `&mut derives`: its effect on the derives is what is compared
+            ok = ds.startswith("mut[FlatDerivesRegistry::resolve_derives_for_type(P%d,P%d)?;%s if (let TypeDef::Composite($)=P%d.type_def&&CompositeIRKind::could_derive_as_compact("
+                               % (i_flat, i_ty, COMPACT_AS_INSERT, i_ty)) and ds.endswith("&&let v1::Some($)=%s]" % COMPACT_AS_PATH)
             ctx.expect(ok, "C08.2", "ir-derives", site(tirs[0]), "item derives = resolved derives of this type (+ CompactAs iff the struct's kind could derive it; never for enums)",
                        "TypeIR.derives is `%s`" % ds[:400])
         else:
@@ -192,12 +196,13 @@ def flatten(ctx):
 
 def compact_as(ctx):
     P = ctx.P
-    expect_fn(ctx, "C08.6", "compact-as/insert", "TypeGenerator::<'a>::add_as_compact_derive",
-              "if(let v1::Some($)=P0.settings.compact_as_type_path){Derives::insert_derive(P1,T[#0](P0.settings.compact_as_type_path@v1::Some.0))}else{'()'}",
-              "the CompactAs derive is inserted iff a path is configured, and it is that path", "scale_typegen")
-    callers = sorted((cshort(b["path"]), show(Norm(b).term(n))[:80]) for b, n in q.callers_of(P, "add_as_compact_derive", GEN))
-    ctx.expect(sorted(c for c, _ in callers) == ["TypeGenerator::create_type_ir", "TypeGenerator::upcast_composite"], "C08.6", "compact-as/call-sites", "",
-               "called from the two IR construction sites only", "add_as_compact_derive called from %s" % callers)
+    # C08.6: where the CompactAs derive is inserted is read off the two IR construction sites (create_type_ir: C08.2; upcast_composite: C18.1 /
+    # `upcast/derives` below): `insert_derive(<configured path>)` iff a path is configured. No other function inserts a derive built from that setting:
+    users = sorted({cshort(o) for c, b in P.all_bodies(GEN) if "body" in b and not q.derived(b)
+                    for n in q.field_reads(b["body"], "settings::TypeGeneratorSettings", "compact_as_type_path") for o in q.owners(ctx, b["path"], GEN)}
+                   - {"TypeGeneratorSettings::compact_as_type_path"})
+    ctx.expect(users == ["TypeGenerator::create_type_ir", "TypeGenerator::upcast_composite"], "C08.6", "compact-as/call-sites", "",
+               "the configured CompactAs path is used by the two IR construction sites only", "compact_as_type_path is used by %s" % users)
     expect_fn(ctx, "C08.7", "compact-as/eligibility", "CompositeIRKind::could_derive_as_compact",
               "TypePath::is_uint_up_to_u128(match(P0){CompositeIRKind::NoFields=>return false;CompositeIRKind::Named($)=>early{(slice::len(P0@CompositeIRKind::Named.0)!='1')=>return false}P0@CompositeIRKind::Named.0['0'].1;"
               "CompositeIRKind::Unnamed($)=>early{(slice::len(P0@CompositeIRKind::Unnamed.0)!='1')=>return false}P0@CompositeIRKind::Unnamed.0['0']}.type_path)",
